@@ -1,10 +1,10 @@
 #!/bin/bash
-# tools/determinism.sh [runs] [props...]  -- every run seed executed twice (16-process split, then 3-process split);
+# [FLAVOUR=seq|sched] tools/determinism.sh [runs] [props...]  -- every run seed executed twice (16-process split, then 3-process split);
 # the per-run logs (op count, trace hash, final state+storage hash, state set hash, outcome) must be identical.
 set -u
 VERIF_HOME="$(cd "$(dirname "$0")/.." && pwd)"; export VERIF_HOME
-"$VERIF_HOME/check" build seq || exit 2
-bin="$VERIF_HOME/build/seq/target/release/meldasim"
+FL="${FLAVOUR:-seq}"; "$VERIF_HOME/check" build "$FL" || exit 2
+bin="$VERIF_HOME/build/$FL/target/release/meldasim"
 runs="${1:-2000}"; shift
 props="${*:-C01 C02 C03 C04 C05 C06 C07 C08 C09 C10 C11 C12 C13 C14 C15 C16 C18 C19}"
 tmp="$VERIF_HOME/.work/det.$$"; mkdir -p "$tmp"
@@ -23,6 +23,14 @@ for p in $props; do
   else
     echo "NONDETERMINISTIC $p:"; diff "$tmp/$p.16.all" "$tmp/$p.3.all" | head -6; rc=1
   fi
+done
+# generate-vs-replay equivalence: a run replayed from its recorded op list ends in the same states and storage
+for p in $props; do
+  n=$(( runs / 4 )); per=$(( (n + 15) / 16 ))
+  for i in $(seq 0 15); do "$bin" selftest "$p" --from $((i*per)) --runs $per 2>/dev/null | grep -E "MISMATCH|^selftest" > "$tmp/$p.self.$i" & done
+  wait
+  bad=$(cat "$tmp/$p.self."* | grep -c MISMATCH)
+  if [ "$bad" = "0" ]; then echo "REPLAY-EQUIVALENT $p: $((per*16)) runs"; else echo "REPLAY-DIFFERS $p: $bad runs"; cat "$tmp/$p.self."* | grep MISMATCH | head -3; rc=1; fi
 done
 rm -rf "$tmp"
 exit $rc
